@@ -36,6 +36,8 @@ pub fn pattern_matches_arguments(pattern: &Pattern, args: &Vec<Value>, env: &mut
       }
       Ok(true)
     }
+    // `*` matches any argument list (it is also what the shorthand arm `| expr.` parses to)
+    Pattern::Wildcard => Ok(true),
     _ => Ok(false),
   }
 }
@@ -136,7 +138,9 @@ pub fn pattern_matches_value_with_semantics(pattern: &Pattern, value: &Value, en
         return Ok(true);
       }
       let expected = expression(expr, Some(env), p)?;
-      if semantics == PatternMatchSemantics::OptionGuard {
+      // A literal pattern (`true`, `false`) is compared with the value like any other literal;
+      // only computed bool expressions (`x > 3`) act as guards.
+      if semantics == PatternMatchSemantics::OptionGuard && !matches!(expr, Expression::Literal(_)) {
         #[cfg(feature = "bool")]
         if let Value::Bool(flag) = &expected {
           return Ok(*flag.borrow());
